@@ -19,7 +19,7 @@ CHECKS = {
     "C13": ("model_checking",
             "TLC checks liveness of the lexer||parser protocol model (LexParse.tla) for all token-kind sequences up to N and 3 lexer endings; every scenario is concretised and run through the real CLI; plus every prefix and random edits of rendered files through generate go / generate typescript / debug under a deadline",
             "The verdict comes only from real CLI runs (an expiry is re-run twice alone with a doubled deadline before it counts); the model says where to look and is kept in step with the code (drift report on the real lexer's token kinds).",
-            "Deadline 5 s (10 s on confirmation) where ~5 ms is normal.", "5 C13"),
+            "Deadline 5 s (10 s on confirmation) where ~5 ms is normal. Small scope, exhaustively: every sequence of up to 4 (thorough: 5) fragments of a 40-fragment alphabet, spaced and fused, through parser.ParseAndBuild in-process (5.3 / 210 million inputs).", "5 C13"),
     "C14": ("model_checking",
             "Two-run self-composition over order-sensitive sites (Determinism.tla, model-checked with the code's set of map-ordered sites); ConfDeterminism.tla requires one single output hash per (grammar file, option set) over repeated real CLI runs and repeated in-process generations",
             "6/12 separate processes + 3 in-process generations per group; grammars with several automatically numbered tokens, several goto targets per state and tie rows.",
@@ -39,7 +39,7 @@ CHECKS = {
     "C16": ("exploration",
             "Every output variant is generated by the real CLI and built by go build / loaded by node 22; ConfBuild.tla states the acceptance rule (generated without error => builds and runs) over the recorded outcomes",
             "Exploration over corpus, random, operator and surface-feature grammars (identifier shapes, all printable ASCII literals except quote and backslash, rule lengths 0..6, tag mixes, with/without union and precedence) x 5 variants; the toolchain is the judge of well-formedness.",
-            "No tsc: TypeScript is loaded after type stripping, not type-checked; go vet output is recorded, not judged.", "5 C16"),
+            "No tsc: TypeScript is loaded after type stripping, not type-checked; go vet output is recorded, not judged. For a sample of grammars two option sets are generated one after the other in one process; the second file is built when it differs from the CLI's.", "5 C16"),
     "C01": ("model_checking",
             "TLC model-checks LRDriver.tla over dense tables recorded from real runs (all inputs up to a bound) and validates event traces of all five generated parser variants against RunTrace.tla (derivation replay, no table consulted)",
             "Table level: every input up to the bound for every recorded grammar: accept only with the start symbol alone on the symbol stack, all handles matching, no missing goto / underflow. Run level: every accepting run of go, go -u, go -o, go -o -u and typescript parsers replays as a rightmost derivation of the whole input.",
@@ -72,7 +72,7 @@ CHECKS = {
             "Every two-way conflict cell of every recorded table is checked against the precedence/associativity/default rules; rules whose precedence differs between yacc's and yaccgo's definition, n-way cells and reduce/reduce with both precedences are explicit don't-cares.",
             "Candidate sets are formed from the implementation's own look-aheads (C03 judges those).", "5 C04"),
     "C05": ("model_checking",
-            "TLC: Lossless on results of the real PackTable over exhaustive small + random matrices; first-fit packer model-checked as a state machine (PackAlgo.tla); SplitLookup(packed arrays) = dense table for every cell of recorded tables; trace validation that packed and -u parsers agree",
+            "TLC: Lossless on results of the real PackTable over exhaustive small + random matrices; first-fit packer model-checked as a state machine (PackAlgo.tla); SplitLookup(packed arrays) = dense table for every cell of recorded tables; trace validation that packed and -u parsers agree; ConfCells.tla: the generated Action() of every built Go variant asked for every (state, symbol) vs the dense table",
             "Every (state, symbol) cell of every packed table recorded from real runs returns the dense entry when looked up as the generated Action() does.",
             "The TLA+ SplitLookup mirrors the template's Action(); behaviour-level packed-vs-unpacked comparison is added by the run campaign.", "5 C05"),
     "C09": ("model_checking",
